@@ -99,6 +99,13 @@ namespace tfel::math::internals {
     }
     static void computeEigenValues(
         Sym& vp0, Sym& vp1, Sym& vp2, const Sym* const v, const bool) {
+      if constexpr (N == 1) {
+        // 1D: the stored components are the eigenvalues (StensorComputeEigenValues<1u>)
+        vp0 = v[0];
+        vp1 = v[1];
+        vp2 = v[2];
+        return;
+      }
       const auto a = args(v);
       vp0 = c05::call("vp0", a, c05::shadow_of("vp0", c05::vp_default(0)));
       vp1 = c05::call("vp1", a, c05::shadow_of("vp1", c05::vp_default(1)));
